@@ -17,6 +17,41 @@ class Inconclusive(Exception):
     """machinery problem: exit 2, never an alarm"""
 
 
+class RepoCrash(Exception):
+    """the harness process was killed by a Go runtime fatal error (stack overflow, concurrent map access, ...) raised
+    while executing omniparser code: behaviour of the real code, reported as a violation of the property being driven.
+    A fatal error whose running goroutine is not inside omniparser code stays Inconclusive."""
+
+    def __init__(self, info):
+        Exception.__init__(self, info["summary"])
+        self.info = info
+
+
+_REPO_PKG = "github.com/jf-tech/omniparser/"
+
+
+def _go_fatal(stderr, last_rec):
+    """classify a dead harness: returns the crash description if the Go runtime killed the process inside omniparser code"""
+    m = re.search(r"^fatal error: (.*)$", stderr, re.M)
+    if not m:
+        return None
+    g = re.search(r"^goroutine \d+[^\n]*\[running[^\n]*\]:\n", stderr, re.M)
+    if not g:
+        return None
+    frames = []
+    for ln in stderr[g.end():].splitlines():
+        if not ln.strip():
+            break
+        if not ln.startswith("\t") and not ln.startswith("..."):
+            frames.append(ln.split("(")[0].strip() if not ln.startswith(_REPO_PKG) else ln[:ln.rfind("(")].strip())
+    user = [f for f in frames if not f.startswith("runtime.") and not f.startswith("runtime/")]
+    if not user or not user[0].startswith(_REPO_PKG):
+        return None
+    return {"fatal": m.group(1).strip(), "function": user[0], "frames": user[:8], "last_record": last_rec,
+            "summary": "the process died with the Go runtime fatal error '%s' inside %s%s" % (
+                m.group(1).strip(), user[0], (" after " + json.dumps(last_rec)[:300]) if last_rec else "")}
+
+
 _scratch = None
 
 
@@ -89,7 +124,11 @@ def run_vh(args, race=False, timeout=3600, stdin=None, env=None, cwd=None):
             except ValueError:
                 pass
     if p.returncode not in (0,):
-        sys.stderr.write(p.stderr[-4000:])
+        crash = _go_fatal(p.stderr, next((r for r in reversed(recs) if r.get("kind") == "progress"), None))
+        if crash:
+            crash["cmd"] = args[0]
+            raise RepoCrash(crash)
+        sys.stderr.write(p.stderr[:3000] + "\n...\n" + p.stderr[-3000:])
         raise Inconclusive("harness failed rc=%d: vh %s" % (p.returncode, " ".join(args[:3])))
     return recs, p.stderr
 
